@@ -5,6 +5,8 @@ import GfsModel.Pad
 import GfsModel.Sequence
 import GfsSpec.SeqSpec
 import GfsProofs.PadLemmas
+import GfsGen.Facts
+import GfsModel.ExpectedSrc
 
 namespace Gfs.Props.C10
 open Gfs Gfs.Spec Gfs.Proofs
@@ -39,5 +41,10 @@ example : padChars .hash4 8 = "##".toList ∧ padSize .hash4 "##".toList = 8 ∧
     padChars .hash1 3 = "###".toList ∧ padSize .hash1 "#@#".toList = 3 ∧
     padSize .hash4 "%04d".toList = 4 ∧ padSize .hash1 "$F".toList = 1 ∧
     padSize .hash4 "<UDIM>".toList = 4 := by decide
+
+/-- the declarations of /repo this property's model and specification were written from are,
+    on this run, the ones the model was last aligned with (digest of their comment- and
+    layout-insensitive fingerprints, re-extracted by tools/gofacts) -/
+theorem C10_source : Gfs.Gen.sourceDigestC10 = Gfs.expectedSourceDigestC10 := by decide
 
 end Gfs.Props.C10
